@@ -1138,3 +1138,285 @@ func contentModelRule(c *eng.Ctx, R string, pkgs []string, floor int, doc string
 		}
 	}
 }
+
+// R2.11 [C02]
+func ruleWeakBound(c *eng.Ctx) {
+	const R = "R2.11-WEAK-BOUND"
+	c.Rule(R, "an index into a byte slice or string that is guarded by a comparison of the same position with the length of the same slice is implied to be in range by one of its guards (pos+k < len for data[pos+k]; the cursor is followed through its increments): a guard that is off by one (<= for <, a smaller offset than the one read) reads past the end on input that stops exactly there, which panics", 0, 1)
+	for _, fn := range c.P.ModuleFuncs() {
+		if fn.Blocks == nil {
+			continue
+		}
+		var fv *eng.FieldVersions
+		n := 0
+		eng.Instrs(fn, false, func(in ssa.Instruction) {
+			var d, idx ssa.Value
+			switch x := in.(type) {
+			case *ssa.IndexAddr:
+				if _, ok := x.X.Type().Underlying().(*types.Slice); !ok {
+					return
+				}
+				d, idx = x.X, x.Index
+			case *ssa.Index:
+				d, idx = x.X, x.Index
+			case *ssa.Lookup:
+				if bt, ok := x.X.Type().Underlying().(*types.Basic); !ok || bt.Info()&types.IsString == 0 {
+					return
+				}
+				d, idx = x.X, x.Index
+			default:
+				return
+			}
+			if _, isConst := idx.(*ssa.Const); isConst {
+				return
+			}
+			if fv == nil {
+				fv = eng.NewFieldVersions(fn)
+			}
+			leaf := fv.Leaf()
+			p, ok := eng.IntPoly(idx, leaf)
+			if !ok {
+				return
+			}
+			// the slice must be the same value at the guard and at the access: same field version or same SSA value
+			sameSlice := func(a, b ssa.Value) bool {
+				if a == b {
+					return true
+				}
+				la, oka := a.(*ssa.UnOp)
+				lb, okb := b.(*ssa.UnOp)
+				if oka && okb && la.Op == token.MUL && lb.Op == token.MUL {
+					ka, ia, ok1 := fv.At(la)
+					kb, ib, ok2 := fv.At(lb)
+					return ok1 && ok2 && ka == kb && fmt.Sprint(ia) == fmt.Sprint(ib)
+				}
+				return false
+			}
+			lenOf := func(v ssa.Value) (ssa.Value, bool) {
+				if call, ok := v.(*ssa.Call); ok {
+					if bi, ok := call.Call.Value.(*ssa.Builtin); ok && bi.Name() == "len" {
+						return call.Call.Args[0], true
+					}
+				}
+				return nil, false
+			}
+			classify := func(f eng.Fact) (related, sufficient bool) {
+				op, x, y, ok := f.Cmp()
+				if !ok {
+					return
+				}
+				// normalise to  X op len(D)
+				if dl, isLen := lenOf(x); isLen {
+					if _, both := lenOf(y); both {
+						return
+					}
+					x, y = y, x
+					op = eng.Swap(op)
+					_ = dl
+				}
+				dl, isLen := lenOf(y)
+				if !isLen || !sameSlice(dl, d) {
+					return
+				}
+				xp, ok := eng.IntPoly(x, leaf)
+				if !ok {
+					return
+				}
+				diff, isC := xp.Sub(p).IsConst()
+				if !isC || !diff.IsInt() {
+					return
+				}
+				k := diff.Num().Int64()
+				switch op {
+				case token.LSS:
+					return true, k >= 0
+				case token.LEQ:
+					return true, k >= 1
+				case token.EQL:
+					return true, false
+				default:
+					return false, false // a fact of the form X >= len says nothing about being in range
+				}
+			}
+			blk := in.Block()
+			suff := eng.GuardedBy(fn, blk, func(f eng.Fact) bool { _, s := classify(f); return s })
+			if suff {
+				return
+			}
+			rel := eng.GuardedBy(fn, blk, func(f eng.Fact) bool { r, _ := classify(f); return r })
+			if !rel {
+				return
+			}
+			n++
+			c.Viol(R, fmt.Sprintf("%s#index%d", eng.FuncName(fn), n), in.Pos(), "the index "+p.String()+" is guarded only by comparisons with the slice length that do not imply it is in range (off by one): input that ends exactly there makes the read panic")
+		})
+	}
+}
+
+// R3.5 [C03]
+func ruleMemoOnSuccess(c *eng.Ctx) {
+	const R = "R3.5-MEMO-ON-SUCCESS"
+	c.Rule(R, "a lazily loaded field that is tested against nil to decide whether to load (t.pages, os.decoded) is not left set when the load fails: every error return that a store to the field can reach is preceded by resetting it, otherwise the failed call is answered from the half-loaded state the next time (a different result for the same operation repeated)", 2, 1)
+	isNilConst := func(v ssa.Value) bool {
+		k, ok := v.(*ssa.Const)
+		return ok && k.Value == nil
+	}
+	recvField := func(addr ssa.Value, fn *ssa.Function) (string, bool) {
+		fa, ok := addr.(*ssa.FieldAddr)
+		if !ok || len(fn.Params) == 0 || fa.X != ssa.Value(fn.Params[0]) || fn.Signature.Recv() == nil {
+			return "", false
+		}
+		fr, ok := eng.AsField(fa)
+		if !ok {
+			return "", false
+		}
+		return fr.Field, true
+	}
+	for _, g := range c.P.ModuleFuncs() {
+		if g.Blocks == nil || g.Signature.Recv() == nil {
+			continue
+		}
+		// memo fields: receiver fields compared with nil in g such that the field is (re)filled only on the nil side
+		// of the test (directly or by a method of the receiver called there) and left alone on the other side
+		storesField := func(in ssa.Instruction, f string) bool {
+			switch x := in.(type) {
+			case *ssa.Store:
+				sf, ok := recvField(x.Addr, g)
+				return ok && sf == f
+			case ssa.CallInstruction:
+				cal := x.Common().StaticCallee()
+				if cal == nil || cal.Blocks == nil || cal.Signature.Recv() == nil || len(x.Common().Args) == 0 || x.Common().Args[0] != ssa.Value(g.Params[0]) {
+					return false
+				}
+				found := false
+				eng.Instrs(cal, false, func(in2 ssa.Instruction) {
+					if st, ok := in2.(*ssa.Store); ok {
+						if sf, ok := recvField(st.Addr, cal); ok && sf == f {
+							found = true
+						}
+					}
+				})
+				return found
+			}
+			return false
+		}
+		regionStores := func(top *ssa.BasicBlock, f string) bool {
+			for _, b := range g.Blocks {
+				if b != top && !top.Dominates(b) {
+					continue
+				}
+				for _, in := range b.Instrs {
+					if storesField(in, f) {
+						return true
+					}
+				}
+			}
+			return false
+		}
+		memo := map[string]bool{}
+		eng.Instrs(g, false, func(in ssa.Instruction) {
+			b, ok := in.(*ssa.BinOp)
+			if !ok || (b.Op != token.EQL && b.Op != token.NEQ) {
+				return
+			}
+			for _, side := range [][2]ssa.Value{{b.X, b.Y}, {b.Y, b.X}} {
+				if !isNilConst(side[1]) {
+					continue
+				}
+				ld, ok := side[0].(*ssa.UnOp)
+				if !ok || ld.Op != token.MUL {
+					continue
+				}
+				f, ok := recvField(ld.X, g)
+				if !ok {
+					continue
+				}
+				for _, r := range *b.Referrers() {
+					iff, ok := r.(*ssa.If)
+					if !ok || len(iff.Block().Succs) != 2 {
+						continue
+					}
+					nilSucc, setSucc := iff.Block().Succs[0], iff.Block().Succs[1]
+					if b.Op == token.NEQ {
+						nilSucc, setSucc = setSucc, nilSucc
+					}
+					if len(nilSucc.Preds) == 1 && regionStores(nilSucc, f) && !regionStores(setSucc, f) {
+						memo[f] = true
+					}
+				}
+			}
+		})
+		if len(memo) == 0 {
+			continue
+		}
+		// loaders: g itself and the methods on the same receiver it calls
+		loaders := []*ssa.Function{g}
+		for _, ci := range eng.Calls(g, false, func(string, ssa.CallInstruction) bool { return true }) {
+			if cal := ci.Common().StaticCallee(); cal != nil && cal != g && cal.Blocks != nil && cal.Signature.Recv() != nil && len(ci.Common().Args) > 0 && ci.Common().Args[0] == ssa.Value(g.Params[0]) {
+				loaders = append(loaders, cal)
+			}
+		}
+		for _, l := range loaders {
+			res := l.Signature.Results()
+			if res.Len() == 0 || !types.Identical(res.At(res.Len()-1).Type(), types.Universe.Lookup("error").Type()) {
+				continue
+			}
+			for f := range memo {
+				var sets, resets []*ssa.Store
+				eng.Instrs(l, false, func(in ssa.Instruction) {
+					st, ok := in.(*ssa.Store)
+					if !ok {
+						return
+					}
+					if sf, ok := recvField(st.Addr, l); ok && sf == f {
+						if isNilConst(st.Val) {
+							resets = append(resets, st)
+						} else {
+							sets = append(sets, st)
+						}
+					}
+				})
+				if len(sets) == 0 {
+					continue
+				}
+				bad := ""
+				for _, r := range eng.Returns(l) {
+					vals := eng.ReturnValues(r)
+					ev := vals[len(vals)-1]
+					nn, known := eng.ErrValueNonNil(ev)
+					if !known {
+						// `return nil, err` under `if err != nil`
+						nn = eng.GuardedBy(l, r.Block(), func(f eng.Fact) bool {
+							op, x, y, ok := f.Cmp()
+							return ok && op == token.NEQ && ((x == ev && isNilConst(y)) || (y == ev && isNilConst(x)))
+						})
+					}
+					if !nn {
+						continue
+					}
+					for _, s := range sets {
+						reach := eng.ReachableBlocks([]*ssa.BasicBlock{s.Block()}, nil)
+						if !reach[r.Block()] && s.Block() != r.Block() {
+							continue
+						}
+						if s.Block() == r.Block() && !eng.InstrDominates(s, r) {
+							continue
+						}
+						cleared := false
+						for _, z := range resets {
+							if (z.Block() == r.Block() || z.Block().Dominates(r.Block())) && (reach[z.Block()] || z.Block() == s.Block()) {
+								if z.Block() != s.Block() || eng.InstrDominates(s, z) {
+									cleared = true
+								}
+							}
+						}
+						if !cleared {
+							bad = fmt.Sprintf("the error return at %s is reached with %s set at %s", c.P.Pos(r.Pos()), f, c.P.Pos(s.Pos()))
+						}
+					}
+				}
+				c.Check(bad == "", R, eng.FuncName(l)+"#"+f, l.Pos(), "the memo field is cleared before every error return it can reach", bad+": the next call sees the field set, skips loading and answers from the partial state")
+			}
+		}
+	}
+}
